@@ -204,9 +204,11 @@ impl Expr {
         match self {
             Self::Number(n) => Ok(*n),
             Self::Variable(name) => {
+                // A variable which is in scope at parse time is not necessarily
+                // assigned on the executed path
                 let value = ctx
                     .get(name)
-                    .expect("Variable not found. This should have been found at parse time");
+                    .ok_or_else(|| ExprErrorKind::VariableNotSet(name.clone()))?;
                 if let crate::OutputValue::Value(n) = value {
                     Ok(n)
                 } else {
